@@ -123,6 +123,10 @@ class SlurmSuite(Suite):
                 pass
             q = sorted(set(ids + ["100", "555"]))
             out.append({"op": "slurm.parse", "text": text, "ids": q, "truth": truth, "wellformed": wellformed})
+            if len(out) % 9 == 0:
+                # the status query fails through all its retries (controller down): nothing may be concluded about any batch
+                out.append({"op": "slurm.parse", "text": text, "ids": q, "truth": truth, "wellformed": wellformed,
+                            "squeueRet": rng.choice([1, 1, 2, 255])})
         return out
 
     def _submit_cases(self, rng, count):
@@ -208,12 +212,13 @@ class SlurmSuite(Suite):
         statuses, complete = [], []
         try:
             for i in case["ids"]:
-                FakePopen.script = [(0, case["text"], "")]
+                ret = case.get("squeueRet", 0)
+                FakePopen.script = [(ret, case["text"], "")] * (1 if ret == 0 else 12)
                 FakePopen.calls = []
                 coll = HpcStatusCollector(StubMgr, 0)
                 statuses.append(coll.check_status(i).name)
                 sub = AsyncHpcSubmitter.create_from_id(StubMgr, coll, i)
-                FakePopen.script = [(0, case["text"], "")]
+                FakePopen.script = [(ret, case["text"], "")] * (1 if ret == 0 else 12)
                 coll._last_poll_time = None
                 complete.append(bool(sub.is_complete()))
         except Exception as e:  # noqa
@@ -312,6 +317,10 @@ class SlurmSuite(Suite):
             if not case.get("wellformed") and isinstance(result, dict) and "complete" in result:
                 # malformed listing must not produce a "finished" verdict for a listed, unfinished id
                 pass
+            if case.get("squeueRet") and isinstance(result, dict) and any(result.get("complete", [])):
+                v.append(Violation("C18", "status.query_failed.treated_finished",
+                                   f"squeue failed (ret={case['squeueRet']}) through all retries, yet is_complete() returned True for "
+                                   f"{[i for i, c in zip(case['ids'], result['complete']) if c]}: nothing is known about these batches"))
         elif op == "slurm.submit":
             if result.get("good") and not case["has_id"]:
                 v.append(Violation("C18", "sbatch.unparsable.accepted",
